@@ -135,9 +135,19 @@ Proof.
 Qed.
 
 (* the length may change while the array is open (append / truncate_array inside a context) *)
+Lemma cget_ctrunc : forall c n i, cget (ctrunc c n) i = if i <? n then cget c i else i.
+Proof.
+  induction c as [|[j v] c IH]; intros n i; cbn [ctrunc filter cget fst]; [destruct (i <? n); reflexivity|].
+  fold (ctrunc c n). destruct (j <? n) eqn:Ej; cbn [cget]; destruct (j =? i) eqn:Eji.
+  - apply Z.eqb_eq in Eji. subst j. rewrite Ej. reflexivity.
+  - apply IH.
+  - apply Z.eqb_eq in Eji. subst j. rewrite IH, Ej. reflexivity.
+  - apply IH.
+Qed.
+
 Theorem resize_step : forall s n, SInv s ->
   let s' := snd (sched_step s (AResize n)) in
-  SInv s' /\ sc_len s' = n /\ sc_data s' = sc_data s /\ sc_users s' = sc_users s /\
+  SInv s' /\ sc_len s' = n /\ sc_data s' = ctrunc (sc_data s) n /\ sc_users s' = sc_users s /\
   sc_gens s' = sc_gens s /\ sc_ctx s' = sc_ctx s.
 Proof.
   intros s n HI s'. destruct (sched_step_safe s (AResize n) HI) as [HI' _]. fold s' in HI'.
